@@ -46,6 +46,16 @@ LoadDef(tbl, opts) ==
   IN IF dup /\ ~opts.dedup THEN [rejected |-> TRUE, names |-> <<>>, rows |-> <<>>]
      ELSE [rejected |-> FALSE, names |-> names, rows |-> [i \in DOMAIN kept |-> [j \in DOMAIN kept[i] |-> cell(kept[i][j])]]]
 
+\* ---------- extract_missing_values (documented option of load) ----------
+\* values: the texts the mapping collects (the option's `values`, default: the schema's missingValues); mv: the schema's missingValues
+\* (override_schema sets them; Table Schema's default is {""}) - the texts schema casting turns into nulls;
+\* source: the field names looked at ({} = all).  Every row gains an object cell: {field: text} for exactly the cells whose text is
+\* one of the values; under schema casting those cells themselves come out as nulls (the mapping is what keeps their text).
+ExtractDef(names, rows, values, source, mv) ==
+  [i \in DOMAIN rows |->
+     [cells |-> [j \in DOMAIN names |-> IF rows[i][j] \in mv THEN <<"null">> ELSE <<"text", rows[i][j]>>],
+      missing |-> {<<names[j], rows[i][j]>> : j \in {k \in DOMAIN names : rows[i][k] \in values /\ (source = {} \/ names[k] \in source)}}]]
+
 \* ---------- bounded universe ----------
 a == 97  b == 98  UA == 65  x == 120  one == 49
 HdrNames == { <<a>>, <<UA>>, <<b>>, <<a>> \o Suffix(2), <<a>> \o Suffix(1) }
@@ -57,6 +67,7 @@ CellCase == /\ \E r \in 1..2, c \in 1..2 : \E d \in [1..r -> [1..c -> CellTexts]
             /\ opts \in [dedup : {FALSE}, cs : {TRUE}, strip : BOOLEAN, limit : {0, 1}]
 LimitCase == /\ \E r \in 1..4 : tbl = << << <<a>> >> >> \o [i \in 1..r |-> << <<one + i>> >>]
              /\ opts \in [dedup : {FALSE}, cs : {TRUE}, strip : {TRUE}, limit : 0..5]
+\* (the extract_missing_values universe is explored by MC_LoadExtract.tla, which instantiates ExtractDef)
 Init == HeaderCase \/ CellCase \/ LimitCase
 Next == UNCHANGED <<tbl, opts>>
 Spec == Init /\ [][Next]_<<tbl, opts>>
